@@ -109,6 +109,15 @@ Theorem C18_non_members_ignored : forall c d b k, mem k c = false ->
 Proof. exact non_members_ignored. Qed.
 Print Assumptions C18_non_members_ignored.
 
+(* history level: a key that is in no schedule of the history (and not announced by the node
+   itself) never gets an entry, whatever is sent. *)
+Theorem C18_never_member_never_stored : forall chk ops k,
+  (forall c d, In (OUpdate c d) ops -> mem k c = false) ->
+  (forall k' a t, In (OAnnounce k' a t) ops -> k' <> k) ->
+  get k (run chk [] ops) = None.
+Proof. exact never_member_never_stored. Qed.
+Print Assumptions C18_never_member_never_stored.
+
 (* the book is, per key, the newest validly signed member announcement among the accepted
    batches ([seen]); rejected batches contribute nothing. *)
 Theorem C18_book_is_newest_seen : forall c bs k,
@@ -129,6 +138,17 @@ Theorem C18_book_convergent : forall c bs1 bs2,
   run_updates c [] bs1 = run_updates c [] bs2.
 Proof. exact book_convergent. Qed.
 Print Assumptions C18_book_convergent.
+
+(* per validator: a key with unique stamps converges even if other keys equivocate, so every
+   node that saw the same announcements of k dials the same address for k. *)
+Theorem C18_book_convergent_key : forall c bs1 bs2 k,
+  (forall e, ekey e = k -> (In e (seen c [] bs1) <-> In e (seen c [] bs2))) ->
+  unique_stamps_of k (seen c [] bs1) ->
+  dial (run_updates c [] bs1) k = dial (run_updates c [] bs2) k.
+Proof.
+  intros c bs1 bs2 k H1 H2. unfold dial. rewrite (book_convergent_key c bs1 bs2 k H1 H2). reflexivity.
+Qed.
+Print Assumptions C18_book_convergent_key.
 
 Theorem C18_run_updates_is_run : forall chk c bs b,
   run_updates c b bs = run chk b (map (OUpdate c) bs).
